@@ -261,6 +261,10 @@ func Run(sources []string) ([]Transcript, error) {
 // programs may import (see gen/gopkgs.HostPackage for the Scriggo side).
 const HostSource = `package host
 
+import "runtime"
+
+func Yield() { runtime.Gosched() }
+
 var Counter int
 
 const Name string = "host"
